@@ -885,7 +885,7 @@ def main():
     distinct = set()
     hist = {"rms": 0, "rms_with_combine": 0, "vecnorm": 0, "vecnorm_exact_1e-9": 0, "obs_kind": {}, "n_envs": {}, "norm_obs_keys": {}, "with_toggles": 0, "start_not_training": 0,
             "clip_obs": {}, "gamma": {}, "epsilon": {}}
-    reported = set()
+    reported, queue = set(), []
     for c, im, probs in zip(cases, impls, results):
         hist[c["kind"]] = hist.get(c["kind"], 0) + 1
         if c["kind"] == "ctor":
@@ -907,11 +907,17 @@ def main():
             if sig in reported:
                 continue
             reported.add(sig)
-            chk.violation(sig, "; ".join(m for _, m in (oracle_bad or probs)[:2]),
+            queue.append((sig, "; ".join(m for _, m in (oracle_bad or probs)[:2]),
                           {"case": c, "problems": probs[:8], "traceback": im.get("traceback"), "correspondence": "harness/c15.py vs Model.VecNorm.vn_trace / Model.RunningMoments (rms_trace)"},
-                          found_input=bool(oracle_bad))
-            if len(reported) >= 3:
-                break
+                          bool(oracle_bad)))
+    # statement-level oracle failures (concrete failing inputs) are reported first; model-only disagreements go into the remaining slots
+    emitted = 0
+    for q_sig, q_msg, q_replay, q_found in sorted(queue, key=lambda q: not q[3]):
+        if q_sig not in {LATE_NORM_OBS_SIG}:
+            if emitted >= 3:
+                continue
+            emitted += 1
+        chk.violation(q_sig, q_msg, q_replay, found_input=q_found)
     chk.coverage["evaluations"] = len(cases)
     chk.coverage["traces_validated_against_impl"] = len(cases)
     chk.coverage["distinct_nontrivial"] = len(distinct)
